@@ -25,12 +25,20 @@ def rule_op_gates(check):
         f = cands[0]
 
         def pred(caller, n, gname=gname):
-            return gate.has_call_gate(gate.atoms_at(caller, n), gname, True)
+            if gate.has_call_gate(gate.atoms_at(caller, n), gname, True):
+                return True
+            # the same answer read another way (the field tested directly, a local holding the answer ..)
+            from . import c04 as _c04
+            from .. import boolform as _BF
+            prem_ = _BF.from_conds(caller, [c_ for c_ in caller.conds_at(n) if c_["t"] != "closure"], _c04.dispatch_atomize, prog)
+            return _BF.entails(prem_, _BF.atom("enabled.plus" if gname.startswith("plus") else "enabled.tpl"))
 
         ok, bad = gate.sites_all_gated(prog, f, pred)
         where = hir.loc(bad[0][1]) if bad and bad[0][1] is not None else hir.loc(f.rec)
         check.expect(ok, R, "%s/%s" % (R, tname), where, "every path to %s passes %s() == true" % (tname, gname), "%s is reachable from %s without %s() == true: a disabled operator is instrumented" % (tname, [T.short(b[0]) for b in bad], gname))
     for name, field, const in (("plus_operator_is_enabled", "plus_operator", "DD_PLUS_OPERATOR"), ("tpl_operator_is_enabled", "tpl_operator", "DD_TEMPLATE_LITERAL_OPERATOR")):
+        if not prog.find_fns("CsiMethods::" + name):
+            continue  # no such accessor in this tree: the field is tested where it is needed (recognised above)
         ok, f = _enabled_fn_ok(prog, name, field)
         check.expect(ok, R, "%s/%s" % (R, name), hir.loc(f.rec), "%s = self.%s.is_some()" % (name, field), "%s no longer reports self.%s.is_some()" % (name, field))
     new = prog.fn("CsiMethods::new")
@@ -186,14 +194,23 @@ def rule_method_gates(check):
         if any(p and p[-1] == "dst" and r[0] == "call" and "find" in r[1] and "CsiMethods::get" in r[2] for r, p in no):
             sites.append((f, n))
     check.floor(R, "method hook emissions", len(sites), 3)
+    from .. import boolform as BF
+    GOT, AWC = BF.atom("entry-found-in-configuration"), BF.atom("allowed-without-callee")
     for f, n in sites:
         atoms = gate.atoms_at(f, n)
-        got = None
-        for c in f.conds_at(n):
-            if c["t"] == "pat" and c["v"] and isinstance(hir.pat_variant(c["pat"]), str) and hir.pat_variant(c["pat"]).split("::")[-1] == "Some":
-                s_ = hir.peel(c["scrut"])
-                if hir.is_call(s_) and hir.callee_name(s_) == "get" and "CsiMethods" in s_["callee"]["path"]:
-                    got = s_
+        gets = []
+
+        def atomize(fn_, e):
+            e = hir.peel(e)
+            if hir.is_call(e) and hir.callee_name(e) == "get" and "CsiMethods" in ((e.get("callee") or {}).get("path") or ""):
+                gets.append(e)
+                return GOT
+            if e.get("k") == "Field" and e.get("field") == "allowed_without_callee":
+                return AWC
+            return None
+
+        prem = BF.from_conds(f, [c for c in f.conds_at(n) if c["t"] != "closure"], atomize, prog)
+        got = gets[0] if gets and BF.entails(prem, GOT) else None
         key = "%s/%s" % (R, f.name)
         if got is None:
             check.bad(R, key, hir.loc(n), "%s builds a method hook without a successful csi_methods.get(..) in scope" % f.name)
@@ -204,7 +221,7 @@ def rule_method_gates(check):
         resolved = pv.resolve_params(name_o)
         bare = any("callee.Expr.0.Ident.0.sym" in ".".join(p) for r, p in resolved)
         if bare:
-            ok = any(a[0] == "place" and a[1].endswith(".allowed_without_callee") and a[2] is True for a in atoms)
+            ok = any(a[0] == "place" and a[1].endswith(".allowed_without_callee") and a[2] is True for a in atoms) or BF.entails(prem, AWC)
             check.expect(ok, R, key + "/allowed_without_callee", hir.loc(n), "bare call only when allowed_without_callee", "a bare call is instrumented without checking allowed_without_callee")
     g = prog.fn("CsiMethods::get")
     r = [hir.peel(x) for x in return_exprs(g.body)]
@@ -240,15 +257,24 @@ def rule_method_gates(check):
     f = ov[0]
     sets = [x for x in f.nodes() if x.get("k") == "Assign" and (hir.place(x["l"]) or "").endswith(".found") and hir.lit_value(x["r"]) is True]
     check.floor(R, "found = true sites", len(sets), 1)
+    from .. import boolform as BF2
+    GOT2 = BF2.atom("method-found-in-configuration")
     for x in sets:
-        atoms = gate.atoms_at(f, x)
-        ok = False
-        for a in atoms:
-            if a[0] == "call" and a[1] == "is_some" and a[4] is True:
-                inner = hir.peel(hir.call_args(a[5])[0])
-                if hir.is_call(inner) and hir.callee_name(inner) == "get" and "CsiMethods" in inner["callee"]["path"]:
-                    no = pv.origins(f, hir.call_args(inner)[1])
-                    ok = all(p and p[-1] == "sym" for r, p in no)
+        gets2 = []
+
+        def atomize2(fn_, e):
+            e = hir.peel(e)
+            if hir.is_call(e) and hir.callee_name(e) == "get" and "CsiMethods" in ((e.get("callee") or {}).get("path") or ""):
+                owner = [h_ for h_ in prog.user_fns if any(y is e for y in h_.nodes())]
+                gets2.append((owner[0] if owner else fn_, e))
+                return GOT2
+            return None
+
+        prem2 = BF2.from_conds(f, [c for c in f.conds_at(x) if c["t"] != "closure"], atomize2, prog)
+        ok = bool(gets2) and BF2.entails(prem2, GOT2)
+        for h_, ge in gets2:
+            no = pv.origins(h_, hir.call_args(ge)[1])
+            ok = ok and bool(no) and all(p and p[-1] == "sym" for r, p in no)
         check.expect(ok, R, R + "/optchain", hir.loc(x), "lowering starts only if csi_methods.get(prop .sym).is_some()", "optional-chain lowering is not gated by the configured method list")
     lits = [(g2, x) for g2 in prog.user_fns for x in g2.nodes() if x.get("k") == "Struct" and (x["res"].get("path") or "").endswith("OptChainVisitor")]
     check.floor(R, "OptChainVisitor constructions", len(lits), 1)
@@ -783,11 +809,14 @@ def rule_defaults(check):
     check.expect(found, R, R + "/dst", hir.loc(cm.rec), "dst defaults to src", "CsiMethod::new: dst does not default to src")
     gm = prog.fn("lib_wasm::RewriterConfig::get_csi_methods")
     defs = {}
-    for x in gm.nodes():
-        if hir.is_call(x):
-            kind, val, src = _default_of(gm, x)
-            if kind == "unwrap_or" and src:
-                defs[src.split(".")[-1]] = val
+    for g_ in prog.flat(gm, 2):
+        if g_ is not gm and not (g_.file or "").endswith("lib_wasm.rs"):
+            continue
+        for x in g_.nodes():
+            if hir.is_call(x):
+                kind, val, src = _default_of(g_, x)
+                if kind == "unwrap_or" and src:
+                    defs[src.split(".")[-1]] = val
     check.expect(defs == {"operator": False, "allowed_without_callee": False}, R, R + "/method-flags", hir.loc(gm.rec), "operator / allowedWithoutCallee default to false", "method flag defaults are %s" % defs)
     none_arm = [x for x in hir.calls_in(gm.body, name="empty")]
     check.expect(len(none_arm) == 1, R, R + "/no-methods", hir.loc(gm.rec), "no csiMethods -> CsiMethods::empty()", "missing csiMethods is not mapped to the empty configuration")
@@ -811,9 +840,9 @@ def rule_config_plumbing(check):
     prog = check.prog
     pv = Prov(prog)
     gm = prog.fn("lib_wasm::RewriterConfig::get_csi_methods")
-    calls = [n for n in hir.walk(gm.body) if hir.is_call(n) and hir.callee_name(n) == "new" and "csi_methods::CsiMethod" in n["callee"]["path"] and "CsiMethods" not in n["callee"]["path"].split("::")[-2]]
-    check.floor(R, "CsiMethod::new call sites", len(calls), 1)
-    for n in calls:
+    calls_g = [(g_, n) for g_ in prog.flat(gm, 2) if g_ is gm or (g_.file or "").endswith("lib_wasm.rs") for n in hir.walk(g_.body) if hir.is_call(n) and hir.callee_name(n) == "new" and "csi_methods::CsiMethod" in n["callee"]["path"] and "CsiMethods" not in n["callee"]["path"].split("::")[-2]]
+    check.floor(R, "CsiMethod::new call sites", len(calls_g), 1)
+    for g_call, n in calls_g:
         fields = []
         for a in hir.call_args(n):
             x = hir.peel_transparent(a)
@@ -823,7 +852,12 @@ def rule_config_plumbing(check):
         check.expect(fields == ["src", "dst", "operator", "allowed_without_callee"], R, R + "/argument-order", hir.loc(n), "CsiMethod::new(src, dst, operator, allowed_without_callee)", "configuration fields are passed as %s" % fields)
         chain = []
         cl = None
-        for anc in gm.ancestors(n):
+        site_ = n
+        if g_call is not gm:
+            # the conversion is a helper applied to each entry: look at where get_csi_methods applies it
+            ss_ = [c_ for c_ in gm.nodes() if (hir.is_call(c_) or c_.get("callee")) and prog.resolve_local(c_) is g_call]
+            site_ = ss_[0] if ss_ else n
+        for anc in (gm.ancestors(site_) if any(y is site_ for y in gm.nodes()) else []):
             if anc.get("k") == "Closure":
                 cl = anc
                 break
